@@ -24,6 +24,13 @@ constant shortcut (`return 'bytes'`) only behind a test that includes the
 separator (`startswith('bytes=')`), never behind a prefix / substring test of
 the bare unit name - and the route compares the unit whole with 'bytes'
 (W: `Range: bytesx=1-3` answered 206 instead of 200 with the whole file).
+
+Second preserving wave: R11(a) looks through a helper of the same class / module that is handed a text computed from
+`req.path` and whose every normal return lies behind its own "pattern found nothing" branch (StaticRoute._resolve_path);
+the pattern may be reached through a local bound once to it / to its bound `.search`, the match may be kept in a local
+and tested with `is (not) None`.  R11(b): the constructor evaluator runs module-level (and own-class) helpers the path is
+handed to in place (request_helpers._apply_trailing_slash_option), reads a module-level name bound to a literal as its
+value and binds omitted parameters to their defaults.  R1 already summarises helpers (PathFacts.summary).
 """
 
 from __future__ import annotations
@@ -1142,10 +1149,69 @@ DECODABLE_PATHS = (
 )
 
 
-def _is_pattern_search(e):
-    return (isinstance(e, ast.Call) and isinstance(e.func, ast.Attribute) and e.func.attr in ('search', 'findall', 'finditer')
-            and isinstance(e.func.value, ast.Attribute) and e.func.value.attr == CHARS_PATTERN
-            and isinstance(e.func.value.value, ast.Name) and e.func.value.value.id in ('self', 'cls', 'StaticRoute'))
+def _is_pattern_attr(e):
+    return (isinstance(e, ast.Attribute) and e.attr == CHARS_PATTERN and isinstance(e.value, ast.Name) and e.value.id in ('self', 'cls', 'StaticRoute'))
+
+
+_SEARCH_METHODS = ('search', 'findall', 'finditer')
+
+
+def _pattern_search_pred(f: Func):
+    """is_search(e) for function f: e is `<pattern>.search(...)` (findall / finditer likewise), the pattern being the class attribute itself or
+    a local of f bound ONCE to it (`pat = self._DISALLOWED_CHARS_PATTERN`), or a call of a local bound once to its bound method
+    (`search = self._DISALLOWED_CHARS_PATTERN.search`)."""
+    stores: Dict[str, int] = {}
+    for x in walk_self(f.node):
+        if isinstance(x, ast.Name) and isinstance(x.ctx, (ast.Store, ast.Del)):
+            stores[x.id] = stores.get(x.id, 0) + 1
+    pats, searches = set(), set()
+    for st in walk_self(f.node):
+        if isinstance(st, ast.Assign) and len(st.targets) == 1 and isinstance(st.targets[0], ast.Name) and stores.get(st.targets[0].id) == 1 \
+                and st.targets[0].id not in f.params():
+            if _is_pattern_attr(st.value):
+                pats.add(st.targets[0].id)
+            elif isinstance(st.value, ast.Attribute) and st.value.attr in _SEARCH_METHODS and _is_pattern_attr(st.value.value):
+                searches.add(st.targets[0].id)
+
+    def is_search(e):
+        if not isinstance(e, ast.Call):
+            return False
+        if isinstance(e.func, ast.Name):
+            return e.func.id in searches
+        return (isinstance(e.func, ast.Attribute) and e.func.attr in _SEARCH_METHODS
+                and (_is_pattern_attr(e.func.value) or (isinstance(e.func.value, ast.Name) and e.func.value.id in pats)))
+
+    results = {st.targets[0].id for st in walk_self(f.node) if isinstance(st, ast.Assign) and len(st.targets) == 1 and isinstance(st.targets[0], ast.Name)
+               and stores.get(st.targets[0].id) == 1 and st.targets[0].id not in f.params() and is_search(st.value)}
+
+    def outcome(e):
+        return is_search(e) or (isinstance(e, ast.Name) and e.id in results)        # the match object / list itself, or a local bound once to it
+
+    def is_none(e):
+        return isinstance(e, ast.Constant) and e.value is None
+
+    def found(e):       # an expression that is true exactly when the pattern found something
+        if outcome(e):
+            return True
+        if isinstance(e, ast.Compare) and len(e.ops) == 1 and isinstance(e.ops[0], (ast.IsNot, ast.NotEq)):
+            return (outcome(e.left) and is_none(e.comparators[0])) or (is_none(e.left) and outcome(e.comparators[0]))
+        return isinstance(e, ast.Call) and isinstance(e.func, ast.Name) and e.func.id == 'bool' and len(e.args) == 1 and not e.keywords and outcome(e.args[0])
+
+    def not_found(e):
+        if isinstance(e, ast.Compare) and len(e.ops) == 1 and isinstance(e.ops[0], (ast.Is, ast.Eq)):
+            return (outcome(e.left) and is_none(e.comparators[0])) or (is_none(e.left) and outcome(e.comparators[0]))
+        return False
+
+    def nothing_found(test, truth):
+        """Does `test` having the outcome `truth` establish that the pattern found NOTHING?"""
+        r = implied(test, truth, found)
+        if r is None:
+            r2 = implied(test, truth, not_found)
+            r = None if r2 is None else (not r2)
+        return r is False
+
+    is_search.nothing_found = nothing_found
+    return is_search
 
 
 def _consults_pattern(p, g: Func, depth=0) -> bool:
@@ -1182,7 +1248,8 @@ def _pattern_gates(p, f: Func, cfg, is_src, src_text: str, depth=0):
     """(gate edges, number of pattern searches read): the CFG edges of f behind which the disallowed-characters pattern
     has found nothing in a text derived from the source (`is_src(node)`: the node IS the source -- `req.path` in the
     responder, a parameter handed such a text in a helper):
-      * the branch edges on which `<pattern>.search(x)` is false, x derived from the source (anything else: unknown idiom);
+      * the branch edges on which `<pattern>.search(x)` is false (`... is None`, a local bound once to the match likewise), x derived
+        from the source (anything else: unknown idiom);
       * the normal out-edges of a statement that calls a helper of the same class / module with an argument derived from
         the source, when EVERY normal return of that helper lies behind a gate edge of its own (k2-c16-2: the
         sanitisation block moved unmodified into StaticRoute._resolve_path, which hands back the file path).  A helper
@@ -1199,9 +1266,10 @@ def _pattern_gates(p, f: Func, cfg, is_src, src_text: str, depth=0):
                                     or (d.kind == 'assign' and d.value is not None and any(is_src(x) for x in walk_self(d.value))) for d in ds)
         return any(is_src(x) for x in walk_self(a))
 
+    is_search = _pattern_search_pred(f)
     gates = [(n.id, y, l) for n in cfg.live_nodes() if n.kind == 'test' for (y, l) in cfg.succ[n.id]
-             if l in ('T', 'F') and implied(n.ast, l == 'T', _is_pattern_search) is False]
-    uses = [x for n in cfg.live_nodes() for x in n.walk() if _is_pattern_search(x)]
+             if l in ('T', 'F') and is_search.nothing_found(n.ast, l == 'T')]
+    uses = [x for n in cfg.live_nodes() for x in n.walk() if is_search(x)]
     for u in uses:
         a = u.args[0] if len(u.args) == 1 and not u.keywords else None
         if not derived(a, rdefs.cfg_node(u)):
@@ -1336,7 +1404,8 @@ def r11_undecodable_path_replaced(run):
 # 'bytes'; "other units" must be served the complete file.  So every value
 # Request.range_unit returns is either
 #   * the unit read off the header: element 0 of `<value>.partition('=')` /
-#     `<value>.split('=' ...)[0]`, handed out unchanged, or
+#     `<value>.split('=' ...)[0]` / the slice `<value>[:<value>.index('=')]`,
+#     handed out unchanged, or
 #   * a constant C on a branch where a test has established that the header's
 #     unit IS C: `<value>.startswith(K)` with every alternative of K carrying the
 #     separator (`K = C + '=' + ...`), `<value> == K` likewise, `<unit> == C`.
@@ -1412,6 +1481,17 @@ class _RangeUnit:
             sp = self._split(e.value)
             if sp is not None:
                 return self._kind(sp, e)
+        if isinstance(e, ast.Subscript) and isinstance(e.slice, ast.Slice) and self.is_value(e.value) and e.slice.step is None and e.slice.upper is not None \
+                and (e.slice.lower is None or (isinstance(e.slice.lower, ast.Constant) and e.slice.lower.value == 0)):
+            # `<value>[:<value>.index('=')]` (k2-c16-3): str.index gives the position of the FIRST occurrence (and raises when there is
+            # none), rindex that of the last; a position held in a local bound once is that position
+            up = e.slice.upper
+            if isinstance(up, ast.Name) and up.id not in self.f.params():
+                ds = self.defs.get(up.id, [])
+                up = ds[0][1] if len(ds) == 1 and ds[0][0] == 'assign' else up
+            if isinstance(up, ast.Call) and isinstance(up.func, ast.Attribute) and up.func.attr in ('index', 'rindex') and len(up.args) == 1 and not up.keywords \
+                    and self.is_value(up.func.value):
+                return self._kind(('partition' if up.func.attr == 'index' else 'rpartition', self._sep(up.args[0], up)), e)
         if isinstance(e, ast.Name) and e.id not in self.f.params():
             ds = self.defs.get(e.id, [])
             kinds = set()
@@ -1426,6 +1506,12 @@ class _RangeUnit:
             if len(kinds) == 1:
                 return kinds.pop()
         return None
+
+    def _sep(self, arg, where):
+        sep = self.p.fold(self.f.module, arg, func=self.f)
+        if not isinstance(sep, str):
+            raise UnknownIdiom('%s: separator of `%s` is not a constant' % (self.f.qual, short(where)))
+        return sep
 
     def _kind(self, sp, where):
         meth, sep = sp
